@@ -9,7 +9,8 @@ ROOT = os.path.dirname(os.path.dirname(os.path.abspath(__file__)))
 T = {
     'C01': ('Hypothesis-generated abstract templates printed in 3 syntaxes '
             'vs reference interpreter; literal-preservation + concatenation '
-            'law',
+            'law; enumerated tag-free soups and near-miss tags (identity '
+            'oracle)',
             'reference interpreter (vf/model.py) and reference lexer are '
             'trusted; literal alphabet is the near-tag alphabet of DESIGN §3'),
     'C02': ('exhaustive 63-subset source-precedence enumeration + '
@@ -37,7 +38,8 @@ T = {
             'detector'),
     'C07': ('Hypothesis abstract templates printed with independent styles in '
             '3 syntaxes; structural normal form of the compiled program and '
-            'render outcomes must agree',
+            'render outcomes must agree; enumerated invalid sources must '
+            'fail with the same class, message and line',
             'printer obeys each syntax\'s documented expressibility limits'),
     'C08': ('fault injection at every namespace-value invocation point of '
             'generated programs; stack identity oracle',
@@ -53,14 +55,17 @@ T = {
             'independent window model',
             'see ASSUMPTIONS in checks/c11.py (size<1 and end-only windows '
             'are only checked relationally)'),
-    'C12': ('exhaustive C11 lattice over counting iterators / lazy sequences; '
+    'C12': ('exhaustive C11 lattice over counting iterators / lazy sequences '
+            '(plus tag variants, refusing item guards, early exits); '
             'pull-count oracle',
             'bound = end shown + size + orphan as stated'),
     'C13': ('Hypothesis lists with duplicate / None / missing keys x sort '
             'specs; ordered-stable-permutation predicate',
             'keys inside one list mutually comparable'),
     'C14': ('Hypothesis try/except/else/finally/raise/return programs vs '
-            'reference interpreter with Python exception semantics',
+            'reference interpreter with Python exception semantics, on a '
+            'compiled template with a render history and re-entered while '
+            'it renders',
             'reference interpreter trusted'),
     'C15': ('exhaustive modifier-subset sweep + Hypothesis values/options; '
             'order-independence metamorphic relation + independent pipeline '
@@ -74,7 +79,9 @@ T = {
             '/ munge / cook histories; fresh-template differential oracle',
             'fresh template of the same source is the reference'),
     'C18': ('deterministic line-level thread scheduler: systematic 1- and '
-            '2-preemption schedules + Hypothesis PCT schedules, package '
+            '2-preemption schedules (all lines; block-tag lines; call path of '
+            'a warm template), 3-preemption compile races + Hypothesis PCT '
+            'schedules, package '
             'global state reset before every schedule; sequential '
             'specification oracle',
             'preemption at Python line granularity inside the package'),
